@@ -4,7 +4,7 @@ EXTENDS StorePath, Json, IOUtils
 Obs == ndJsonDeserialize(IOEnv.TRACE)
 VARIABLE i
 C30v(o) == IF ~C30_InsideP(o.dir, o.db, o.touched) THEN "C30_Outside" ELSE "ok"
-TInit == i = 1 /\ uid = <<"1">> /\ field = "SOPInstanceUID" /\ sop = "prefixed"
-TNext == /\ i <= Len(Obs) /\ PrintT(<<"VERDICT", Obs[i].id, C30v(Obs[i])>>) /\ i' = i + 1 /\ UNCHANGED <<uid, field, sop>>
-TSpec == TInit /\ [][TNext]_<<i, uid, field, sop>>
+TInit == i = 1 /\ uid = <<"1">> /\ field = "SOPInstanceUID" /\ sop = "prefixed" /\ known = "new"
+TNext == /\ i <= Len(Obs) /\ PrintT(<<"VERDICT", Obs[i].id, C30v(Obs[i])>>) /\ i' = i + 1 /\ UNCHANGED <<uid, field, sop, known>>
+TSpec == TInit /\ [][TNext]_<<i, uid, field, sop, known>>
 =============================================================================
